@@ -39,6 +39,18 @@ def run(rep, tier, seed, replay):
         rep.violation({"kind": "ops", "oracle": "candidates are the healthy members of the preferred tier; removing a host closes the stored object's removal latch",
                        "case": {"line": cases[i]}, "impl": impl[i], "expected": model[i], "disagreeing_cases": len(mm)})
     # end to end: the TCP processor in front of scripted backends
+    v = tcp_end_to_end(rep, PROP, seed, tier)
+    if v and not found:
+        found = True
+        rep.violation(v)
+    if not pr["ok"] and not found:
+        rep.violation({"kind": "broken-tie", "theorem": pr.get("broken"), "detail": pr.get("tail"), "searched": "no disagreement"}, found_input=False)
+
+
+def tcp_end_to_end(rep, PROP, seed, tier):
+    """the TCP processor in front of scripted backends: backend reached by every connection, per-host counts after every step,
+    connections closed on removal vs the model; membership and round-robin fairness of the backends reached.  Returns a violation dict or None."""
+    quick = tier == "quick"
     res = differential(rep, PROP, "c06tcp", seed + 9, 40 if quick else 3000, tier)
     cases, impl, model = res["cases"], res["impl"], res["models"]["c06tcp"]
     mm = vlib.diff_lines(impl, model)
@@ -80,8 +92,7 @@ def run(rep, tier, seed, replay):
                 elif op[0] == "u":
                     down.discard(x)
     rep.cov["correspondence"]["membership and round-robin fairness of the backends reached"] = {"cases": len(cases), "disagreements": len(bad)}
-    if (mm or bad) and not found:
-        found = True
+    if mm or bad:
         if bad:
             i, what = min(bad, key=lambda x: len(cases[x[0]]))
         else:
@@ -89,7 +100,6 @@ def run(rep, tier, seed, replay):
             xs, ys = impl[i].split(" ; "), model[i].split(" ; ")
             k = [j for j in range(max(len(xs), len(ys))) if (xs[j] if j < len(xs) else None) != (ys[j] if j < len(ys) else None)][0]
             what = "after step %d: observed '%s', expected '%s' (backend reached / connections closed, then each host's connection count)" % (k, xs[k] if k < len(xs) else "", ys[k] if k < len(ys) else "")
-        rep.violation({"kind": "history", "oracle": what, "case": {"line": cases[i], "format": "policy backends # o[:outcome] open, c<i> close, d<b>/u<b> backend refuses/accepts, r<b>/a<b> remove/add host"},
-                       "impl": impl[i], "expected": model[i], "disagreeing_cases": len(mm) + len(bad)})
-    if not pr["ok"] and not found:
-        rep.violation({"kind": "broken-tie", "theorem": pr.get("broken"), "detail": pr.get("tail"), "searched": "no disagreement"}, found_input=False)
+        return {"kind": "history", "oracle": what, "case": {"line": cases[i], "format": "policy backends # o[:outcome] open, c<i> close, d<b>/u<b> backend refuses/accepts, r<b>/a<b> remove/add host"},
+                "impl": impl[i], "expected": model[i], "disagreeing_cases": len(mm) + len(bad)}
+    return None
